@@ -3,3 +3,6 @@ import GldapModel.Props.C13
 #print axioms ConnLoop.C13_current_facts
 #print axioms ConnLoop.C13_current
 #print axioms ConnLoop.C13_counterexample
+#print axioms ConnLoop.C13_tunnel_writer
+#print axioms ConnLoop.C13_tunnel_writer_current
+#print axioms ConnLoop.C13_counterexample_stale_writer
